@@ -65,6 +65,11 @@ class Env:
 
     def __init__(self, tmp, uid, hist):
         reset()
+        if mx.get_models():          # (hygiene) entries a broken registry would not let reset() close
+            try:
+                sysimpl().models.clear()
+            except Exception:
+                pass
         purge_ios()
         self.tmp = tmp
         self.hist = hist
